@@ -273,7 +273,11 @@ def verify_contract(index, registry, c: Contract, tier="quick"):
         rec["error"] = f"{type(e).__name__}: {e}"
         return rec
     t0 = time.time()
-    for vt, vname in variants(c.types):
+    types = dict(c.types)
+    if tier == "quick" and c.types_quick:
+        types.update(c.types_quick)
+        rec["note"] = "quick tier: reduced set of type variants " + str(c.types_quick)
+    for vt, vname in variants(types):
         rec["variants"] += 1
         ex = Executor(index, registry, c, vt, vname)
         try:
@@ -311,11 +315,15 @@ def verify_contract(index, registry, c: Contract, tier="quick"):
             rec["error"] = f"no reachable exit in variant [{vname}]"
             return rec
         rec["covers"] += ncov
+        rec["dead_paths"] = rec.get("dead_paths", 0) + len(ex.dead_ends)
         for ob in obls:
             d = discharge_isolated(ob, rlimit, 40 if tier == "quick" else 240)
             d.update(name=ob.name, kind=ob.kind, line=ob.line, note=ob.note)
             rec["obligations"].append(d)
     rec["wall_ms"] = round((time.time() - t0) * 1000)
+    if rec.get("dead_paths") and all(o["result"] == "proved" for o in rec["obligations"]):
+        rec["status"] = "vacuous"
+        rec["error"] = f"{rec['dead_paths']} path(s) ended on contradictory assumptions although no obligation failed (inconsistent contract?)"
     if not rec["obligations"]:
         rec["status"] = "vacuous"
         rec["error"] = "zero obligations generated"
